@@ -44,8 +44,10 @@ func judgeFailingFormatter(c Case, w *vkit.W) {
 	if got := orig.String(); got != ext {
 		w.Fail(c, "output-not-canonical", fmt.Sprintf("with a failing Formatter, String() of %d-%d-%d = %q, canonical text is %q", c.Y, c.M, c.D, got, ext))
 	}
-	if b, err := orig.MarshalText(); err == nil {
-		w.Fail(c, "formatter-error-swallowed", fmt.Sprintf("with a failing Formatter, MarshalText returned %q without an error", b))
+	// MarshalText under a failing Formatter: whether it reports the error or falls back as String does is not part of the
+	// statement; if it does produce text, that text must be the canonical one
+	if b, err := orig.MarshalText(); err == nil && string(b) != ext {
+		w.Fail(c, "output-not-canonical", fmt.Sprintf("with a failing Formatter, MarshalText of %d-%d-%d = %q without an error, canonical text is %q", c.Y, c.M, c.D, b, ext))
 	}
 }
 
@@ -318,7 +320,7 @@ func TestCheck(t *testing.T) {
 
 	// Phase A2: the package-level Formatter is a setting. With a Formatter that fails, String and the fmt verbs fall back to
 	// the default formatter (documented for String) and must still produce the canonical text of the requested format;
-	// MarshalText reports the error instead of producing other text.
+	// MarshalText may report the error, but must not produce other text.
 	r.Phase("A2: String and the fmt verbs with a failing package-level Formatter (documented fallback), boundary dates", func() {
 		old := date.Formatter
 		defer func() { date.Formatter = old }()
